@@ -374,11 +374,20 @@ def extract(src):
     out.append(("apiVersionAttempts", v))
     gav = src.func("client.py", "KafkaClient.get_api_version")
     rets = [const_value(n.value) for n in ast.walk(gav) if isinstance(n, ast.Return) and isinstance(n.value, (ast.Constant, ast.UnaryOp))]
-    if not rets:
-        raise KeyError("get_api_version: constant fallback return not found")
+    # the lookup must be by api key: `for v in self._api_versions: if v.api_key == key: return int(v.max_version)`
+    by_key = False
+    for n in ast.walk(gav):
+        if isinstance(n, ast.For) and isinstance(n.iter, ast.Attribute) and n.iter.attr == "_api_versions":
+            for c in ast.walk(n):
+                if (isinstance(c, ast.Compare) and isinstance(c.left, ast.Attribute) and c.left.attr == "api_key" and len(c.ops) == 1
+                        and isinstance(c.ops[0], ast.Eq) and isinstance(c.comparators[0], ast.Name) and c.comparators[0].id == "key"):
+                    by_key = True
+    if not by_key:
+        raise KeyError("get_api_version: the table is no longer searched by `api_key == key`")
+    if len(rets) != 2:
+        raise KeyError("get_api_version: expected the legacy fallback and the missing-key fallback as constant returns, found %s" % rets)
     out.append(("apiVersionFallback", rets[0]))
-    if len(rets) > 1:
-        out.append(("apiVersionMissingKey", rets[-1]))
+    out.append(("apiVersionMissingKey", rets[-1]))
     # ---- producer: the message format is chosen by the truthiness of client._api_versions -------------------------
     sr = src.func("producer.py", "Producer._send_requests")
     found = None
